@@ -74,7 +74,73 @@ def norm(items):
             out.append(n)
         else:
             out.append(it)
-    return out
+    return _merge_exclusive(out)
+
+
+def _shape_eq(a, b, diff):
+    """structural equality of two normalised subtrees up to the *values* of primitive leaves; `diff` collects whether
+    some leaf value differs"""
+    if a.get("t") != b.get("t"):
+        return False
+    t = a["t"]
+    if t == "Prim":
+        if a.get("kind") != b.get("kind") or len(a.get("args") or []) != len(b.get("args") or []) or ("inner" in a) != ("inner" in b) or ("v" in a) or ("v" in b):
+            return False
+        if "inner" in a:
+            return _shape_list_eq(a["inner"], b["inner"], diff)
+        for x, y in zip(a.get("args") or [], b.get("args") or []):
+            if isinstance(x, V) and isinstance(y, V):
+                if core(x).r() != core(y).r():
+                    diff.append(1)
+            elif x != y:
+                return False
+        return True
+    if t in ("Seq", "Set", "SetOf", "Tagged"):
+        def _tg(x):
+            tg = x.get("tag")
+            return (tg.r() if isinstance(tg, V) else tg, x.get("mode"), x.get("cls"), x.get("was_implicit_over"))
+        if t == "Tagged" and _tg(a) != _tg(b):
+            return False
+        return _shape_list_eq(a.get("c") or [], b.get("c") or [], diff)
+    return False        # Cond / Rep / Raw / Opaque inside: not merged
+
+
+def _shape_list_eq(xs, ys, diff):
+    return len(xs) == len(ys) and all(_shape_eq(x, y, diff) for x, y in zip(xs, ys))
+
+
+def _merge_tree(a, b, ca, cb):
+    n = dict(a)
+    if a["t"] == "Prim":
+        if "inner" in a:
+            n["inner"] = [_merge_tree(x, y, ca, cb) for x, y in zip(a["inner"], b["inner"])]
+        else:
+            n["args"] = [x if not (isinstance(x, V) and isinstance(y, V)) or core(x).r() == core(y).r() else PhiV([(ca, x), (cb, y)]) for x, y in zip(a.get("args") or [], b.get("args") or [])]
+            n["_split"] = True      # (do not split the merged value apart again)
+        return n
+    n["c"] = [_merge_tree(x, y, ca, cb) for x, y in zip(a.get("c") or [], b.get("c") or [])]
+    return n
+
+
+def _merge_exclusive(out):
+    """Two adjacent emissions of the same structure under mutually exclusive conditions that differ only in leaf *values*
+    (`match m { A(x) => write_ext(w, x), B => write_ext(w, f()) }`) are one emission of a case-split value
+    (`write_ext(w, match m { A(x) => x, B => f() })`)."""
+    i = 0
+    res = []
+    while i < len(out):
+        a = out[i]
+        b = out[i + 1] if i + 1 < len(out) else None
+        if b is not None and a.get("t") == "Cond" and b.get("t") == "Cond" and len(a["c"]) == 1 and len(b["c"]) == 1 and a["c"][0].get("t") == "Seq":
+            g = And(a["f"], b["f"])
+            diff = []
+            if (g is False or not F.counterexamples(g, False, "implies")) and _shape_eq(a["c"][0], b["c"][0], diff) and diff:
+                res.append({"t": "Cond", "f": Or(a["f"], b["f"]), "c": [_merge_tree(a["c"][0], b["c"][0], a["f"], b["f"])]})
+                i += 2
+                continue
+        res.append(a)
+        i += 1
+    return res
 
 
 def canon_tag(n):
